@@ -58,6 +58,17 @@ def load_known() -> tuple[dict, list]:
     return known, fixed
 
 
+def _baseline() -> dict:
+    """instance counts per rule confirmed on the reference tree (tools/gen_baseline.py): a rule that finds fewer
+    instances than that has lost its anchor - the run fails as analysis-broken instead of passing vacuously"""
+    path = os.path.join(VERIF, 'pkstatic', 'baseline_counts.json')
+    try:
+        with open(path, encoding='utf-8') as fp:
+            return json.load(fp)
+    except OSError:
+        return {}
+
+
 class Check:
     """collects obligations for one property and one tier"""
 
@@ -102,13 +113,19 @@ class Check:
         if text not in self.assumptions:
             self.assumptions.append(text)
 
+    def effective_floors(self) -> dict:
+        floors = dict(self.floors)
+        for rule, n in _baseline().get(self.pid, {}).items():
+            floors[rule] = max(floors.get(rule, 0), n)
+        return floors
+
     # -- finishing
     def finish(self) -> int:
         known, _fixed = load_known()
         bad = [o for o in self.obs if not o.ok]
         if not [o for o in bad if (self.pid, o.rule, o.construct) not in known]:
             # vacuity guard (only when nothing is reported anyway: a real finding is never hidden behind it)
-            for rule, n in self.floors.items():
+            for rule, n in self.effective_floors().items():
                 got = self.instances.get(rule, 0)
                 if got < n:
                     raise AnalysisError(
